@@ -274,8 +274,11 @@ type stepCase struct {
 }
 
 func (g *G) genProps() core.StepProps {
-	if g.chance(0.5) {
+	if g.chance(0.4) {
 		return nil
+	}
+	if g.chance(0.2) {
+		return core.StepProps{}
 	}
 	return core.StepProps{"mid": "m1", "cfg": map[string]interface{}{"k": "v"}}
 }
